@@ -246,6 +246,9 @@ func (c *BClient) recv() []vtx.Rx {
 	return out
 }
 
+// Recv returns what has arrived since the last call (frames of a stream, datagrams of a socket).
+func (c *BClient) Recv() []vtx.Rx { return c.recv() }
+
 // Await blocks (as a scheduling point) until the response with id tx arrives
 // or the system is otherwise quiescent forever (then the thread stays parked).
 func (c *BClient) Await(method uint16, tx [12]byte) *wire.Msg {
